@@ -627,4 +627,20 @@ Definition run_from (st : state) (evs : list event) : state :=
 
 Definition run (dos_enabled : bool) (evs : list event) : state := run_from (init dos_enabled) evs.
 
+(* The controller projection of a signature operation (syncAppProtectUserSig ->
+   processAppProtectUserSigChange -> Configurator.RefreshAppProtectUserSigs): the user-signature
+   folder is cleared and rewritten, with its index, from UserSigChange.UserSigs.  [files] are the
+   sets the index lists (namespace/name).  Operations on other kinds do not touch the folder. *)
+Definition project_files (files : list string) (out : output) : list string :=
+  match o_usersigs out with Some l => l | None => files end.
+
+Definition ctl_step (sf : state * list string) (ev : event) : state * list string :=
+  (fst (step (fst sf) ev), project_files (snd sf) (snd (step (fst sf) ev))).
+
+Definition ctl_run_from (sf : state * list string) (evs : list event) : state * list string :=
+  fold_left ctl_step evs sf.
+
+Definition ctl_run (dos_enabled : bool) (evs : list event) : state * list string :=
+  ctl_run_from (init dos_enabled, []) evs.
+
 End Variant.
